@@ -73,12 +73,13 @@ def classify(ur):
     for e in res.rlimit_hit:
         ur.undecided.append(('rlimit', e['message'] + ' ' + e.get('rendered', '')[:500]))
     for e in res.failed:
-        labels, repo_sites, hints, prelude, autos, fnn = [], [], 0, 0, [], None
+        labels, repo_sites, hints, prelude, autos, fnn, xprops = [], [], 0, 0, [], None, []
         for (f, a, b, prim, lab) in e['spans']:
             if not f.endswith(os.path.basename(ur.path)):
                 continue
             o = g.origin[a - 1] if 0 < a <= len(g.origin) else {'origin': 'prelude'}
             fnn = fnn or o.get('fn')
+            xprops += list(o.get('props', ()))
             if o['origin'] == 'contract' and o.get('label'):
                 if o['label'].startswith('auto.'):
                     autos.append(o['label'])
@@ -111,7 +112,7 @@ def classify(ur):
                     f, ln, txt = o['file'], o['line'], g.lines[a - 1].strip()
             txt = ' '.join(txt.split())
             name = 'SAFETY:%s:%s:%s' % (fnn, kind, txt[:80])
-            props = ['C05'] + list(getattr(ur.unit.fns.get(fnn), 'props', ()) if fnn in ur.unit.fns else ())
+            props = ['C05'] + list(getattr(ur.unit.fns.get(fnn), 'props', ()) if fnn in ur.unit.fns else ()) + xprops
         elif hints:
             ur.undecided.append(('proof-hint', 'a proof hint no longer verifies: ' + e['rendered'][:600]))
             continue
